@@ -39,6 +39,13 @@ type c07TC struct {
 	// Prefill: index into c07Prefills (0 = none): runner-owned request fields
 	// that the suite author filled in although the runner populates them.
 	Prefill int `json:"prefill,omitempty"`
+	// Request-level fields of the test-case template (phase G). Get:
+	// use_get_http_method. EmptyService / EmptyMethod: the optional field is
+	// PRESENT with the empty string (Service / Method == ""), the third state of
+	// an optional scalar besides absent and set.
+	Get          bool `json:"use_get_http_method,omitempty"`
+	EmptyService bool `json:"service_present_but_empty,omitempty"`
+	EmptyMethod  bool `json:"method_present_but_empty,omitempty"`
 }
 
 type c07Suite struct {
@@ -174,11 +181,28 @@ func c07Name(s *c07Suite, tc *c07TC, cc c07CC) string {
 	return strings.Join(parts, "/")
 }
 
-func c07ServiceMethod(tc *c07TC) (string, string) {
-	if tc.Service == "" && tc.Method == "" {
-		return c07DefaultService, c07DefaultMethods[tc.Stream]
+// c07ServiceMethod: what the permutation's request must carry. The statement:
+// "a default service and method for its stream type"; docs/authoring_test_cases.md:
+// "optional as a pair ... can both be omitted or must be specified together. If
+// they are omitted, the runner will auto-populate them"; client_compat.proto:
+// "If specified, method must also be specified. If not specified, defaults to".
+//
+//   - both non-empty: the given pair;
+//   - neither names anything (absent or present-but-empty, in any of the four
+//     combinations): the defaults. Whether a present-but-empty field counts as
+//     "specified" the documents do not say, so refusing such a suite is accepted
+//     as well (mayReject) - but a permutation, if there is one, carries the defaults;
+//   - exactly one non-empty: "must be specified together", a refusal is expected;
+//     the documents do not say what else could happen, so if the suite loads the
+//     only demand is that service and method are not empty (loose).
+func c07ServiceMethod(tc *c07TC) (service, method string, loose, mayReject bool) {
+	switch {
+	case tc.Service != "" && tc.Method != "":
+		return tc.Service, tc.Method, false, false
+	case tc.Service == "" && tc.Method == "":
+		return c07DefaultService, c07DefaultMethods[tc.Stream], false, tc.EmptyService || tc.EmptyMethod
 	}
-	return tc.Service, tc.Method
+	return "", "", true, true
 }
 
 // What the grpc-go based peers can do: testing/grpc-impls-config.yaml (HTTP/2,
@@ -219,6 +243,7 @@ type c07Perm struct {
 	CC      c07CC
 	Service string
 	Method  string
+	Loose   bool // service / method: any non-empty pair (see c07ServiceMethod)
 	Stream  int32
 	Simple  string
 }
@@ -245,6 +270,10 @@ func c07Model(in *c07Input, cases []c07CC) c07ModelResult {
 		}
 		for j := range s.Cases {
 			tc := &s.Cases[j]
+			svc, method, loose, mayReject := c07ServiceMethod(tc)
+			if mayReject {
+				res.MayReject = true
+			}
 			for _, cc := range cases {
 				res.NCandidates++
 				if !c07Exists(s, tc, cc, in.RunMode) {
@@ -255,8 +284,7 @@ func c07Model(in *c07Input, cases []c07CC) c07ModelResult {
 				if _, dup := res.Perms[name]; dup {
 					res.Ambiguous = true
 				}
-				svc, method := c07ServiceMethod(tc)
-				res.Perms[name] = c07Perm{CC: cc, Service: svc, Method: method, Stream: tc.Stream, Simple: tc.Name}
+				res.Perms[name] = c07Perm{CC: cc, Service: svc, Method: method, Loose: loose, Stream: tc.Stream, Simple: tc.Name}
 			}
 		}
 	}
@@ -375,14 +403,15 @@ func (s *c07Suite) toProto() *conformancev1.TestSuite {
 			TestName:   tc.Name,
 			StreamType: conformancev1.StreamType(tc.Stream),
 		}
-		if tc.Service != "" {
+		if tc.Service != "" || tc.EmptyService {
 			svc := tc.Service
 			req.Service = &svc
 		}
-		if tc.Method != "" {
+		if tc.Method != "" || tc.EmptyMethod {
 			m := tc.Method
 			req.Method = &m
 		}
+		req.UseGetHttpMethod = tc.Get
 		if tc.Prefill > 0 && tc.Prefill < len(c07Prefills) {
 			c07Prefills[tc.Prefill].apply(req)
 		}
@@ -457,6 +486,7 @@ type c07Seen struct {
 	HasService    bool
 	HasMethod     bool
 	Limit         uint32
+	Get           bool // use_get_http_method (the author's; part of the snapshot only)
 	ReqName       string
 	CertBytes     string // content of server_tls_cert
 	CredsBytes    string // content of client_tls_creds (cert NUL key)
@@ -475,7 +505,7 @@ func c07See(tc *conformancev1.TestCase) c07Seen {
 		TLS: len(req.GetServerTlsCert()) > 0, Certs: req.GetClientTlsCreds() != nil,
 		Service: req.GetService(), Method: req.GetMethod(),
 		HasService: req.Service != nil, HasMethod: req.Method != nil, //nolint:protogetter
-		Limit: req.GetMessageReceiveLimit(), ReqName: req.GetTestName(),
+		Limit: req.GetMessageReceiveLimit(), ReqName: req.GetTestName(), Get: req.GetUseGetHttpMethod(),
 	}
 }
 
@@ -492,6 +522,8 @@ func (s c07Seen) key() string {
 	b = strconv.AppendBool(b, s.HasService)
 	b = append(b, ',')
 	b = strconv.AppendBool(b, s.HasMethod)
+	b = append(b, ',')
+	b = strconv.AppendBool(b, s.Get)
 	b = append(b, ',')
 	b = strconv.AppendUint(b, uint64(s.Limit), 10)
 	b = append(b, ',')
@@ -689,6 +721,16 @@ func c07Evaluate(in *c07Input, set *c07CfgSet, reps int, verbose bool) c07Result
 		}
 		if seen.Certs != perm.CC.Certs {
 			bad("request-field:client_tls_creds", "%q: client_tls_creds marker present=%v, case use_tls_client_certs=%v", name, seen.Certs, perm.CC.Certs)
+		}
+		if perm.Loose {
+			// one of service / method given without the other and the suite loaded all the same
+			if seen.Service == "" {
+				bad("request-field:service", "%q: service is empty (the test case names only one of service and method)", name)
+			}
+			if seen.Method == "" {
+				bad("request-field:method", "%q: method is empty (the test case names only one of service and method)", name)
+			}
+			continue
 		}
 		if !seen.HasService || seen.Service != perm.Service {
 			bad("request-field:service", "%q: service %q (set=%v), want %q", name, seen.Service, seen.HasService, perm.Service)
@@ -1340,6 +1382,78 @@ func c07PrefilledCaseSets(thorough bool) [][]c07TC {
 	return out
 }
 
+// c07RequestCaseSets (phase G): the request-level fields of the test-case
+// template as an axis. use_get_http_method (false / true) x service x method,
+// each optional scalar in its three states (absent, present but empty, set) =
+// all nine combinations, over the stream types of the universe. Which
+// permutations exist is decided by the suite directives and the stream type
+// alone (c07Exists never looks at these fields): use_get_http_method is "an
+// instruction to the client" (client_compat.proto), relies_on_connect_get is the
+// suite-level directive. Sets whose outcome may be a refusal of the whole load
+// (a present-but-empty field; one of service / method without the other) are kept
+// apart from the loadable ones so that a refusal cannot hide anything else.
+func c07RequestCaseSets(thorough bool) [][]c07TC {
+	streamNames := map[int32]string{1: "unary", 2: "client-stream", 3: "server-stream", 4: "bidi-stream/half-duplex", 5: "bidi-stream/full-duplex"}
+	streams := []int32{1, 3, 5}
+	if thorough {
+		streams = []int32{1, 2, 3, 4, 5}
+	}
+	const svc = "custom.pkg.v1.OtherService"
+	// state: 0 absent, 1 present but empty, 2 set
+	mk := func(stream int32, get bool, svcState, methState int) c07TC {
+		tc := c07TC{Stream: stream, Get: get}
+		label := []string{"absent", "empty", "set"}
+		tc.Name = fmt.Sprintf("%s/get=%v,service-%s,method-%s", streamNames[stream], get, label[svcState], label[methState])
+		switch svcState {
+		case 1:
+			tc.EmptyService = true
+		case 2:
+			tc.Service = svc
+		}
+		switch methState {
+		case 1:
+			tc.EmptyMethod = true
+		case 2:
+			tc.Method = "Other" + fmt.Sprint(stream)
+		}
+		return tc
+	}
+	var out [][]c07TC
+	// 1. loadable: get x {both absent, both set} on every stream type
+	var loadable []c07TC
+	for _, st := range streams {
+		for _, get := range []bool{true, false} {
+			loadable = append(loadable, mk(st, get, 0, 0), mk(st, get, 2, 2))
+		}
+	}
+	out = append(out, loadable)
+	// 2. get together with pre-filled runner-owned fields (protocol pre-filled as Connect / as gRPC-Web)
+	out = append(out, []c07TC{
+		{Name: "unary/get+prefilled-low", Stream: 1, Get: true, Prefill: 4},
+		{Name: "unary/get+prefilled-high", Stream: 1, Get: true, Prefill: 5},
+		{Name: streamNames[streams[len(streams)-1]] + "/get+prefilled-mid", Stream: streams[len(streams)-1], Get: true, Prefill: 9},
+		{Name: "unary/plain", Stream: 1},
+	})
+	// 3.-5. neither names anything, at least one field present but empty: (empty, empty), (absent, empty), (empty, absent)
+	for _, st := range [][2]int{{1, 1}, {0, 1}, {1, 0}} {
+		var set []c07TC
+		for i, stream := range streams {
+			set = append(set, mk(stream, i%2 == 1, st[0], st[1]))
+		}
+		set = append(set, mk(1, true, st[0], st[1]), c07TC{Name: "unary/sibling-without-service-and-method", Stream: 1})
+		out = append(out, set)
+	}
+	// 6.-9. one of the two named without the other: (set, absent), (set, empty), (absent, set), (empty, set)
+	for _, st := range [][2]int{{2, 0}, {2, 1}, {0, 2}, {1, 2}} {
+		var set []c07TC
+		for i, stream := range streams {
+			set = append(set, mk(stream, i%2 == 0, st[0], st[1]))
+		}
+		out = append(out, set)
+	}
+	return out
+}
+
 // c07Universe: the reduced universe of config-case values. Cases using client
 // certificates without TLS are left out: client_compat.proto rules them out
 // ("will only be present when server_tls_cert is non-empty") and the documents
@@ -1453,6 +1567,9 @@ type c07Plan struct {
 	multiCases   [][]c07TC
 	shapes       [][]c07Suite // phase F: two suites with path-shaped names
 	shapeSets    []*c07CfgSet
+	reqCases     [][]c07TC // phase G: request-level fields of the test-case template
+	reqDirs      []c07Suite
+	reqSets      []*c07CfgSet
 }
 
 // c07PrefillBlock: test-case sets with pre-filled runner-owned fields, the
@@ -1499,6 +1616,11 @@ func c07MakePlan(t *testing.T, thorough bool) *c07Plan {
 		plan.twinBase = append(plan.twinBase, d)
 	}
 	plan.twinSets = []*c07CfgSet{plan.named[0], named[3]}
+	// phase G: the same reduced directive list (every relies-on combination, mode, protocol subset;
+	// versions and codecs any / pinned), whole universe and default config
+	plan.reqDirs = plan.twinBase
+	plan.reqCases = c07RequestCaseSets(thorough)
+	plan.reqSets = []*c07CfgSet{plan.named[0], named[3]}
 	plan.multi = c07MultiValueDirectives()
 	plan.multiCases = [][]c07TC{small[0], small[1]}
 	plan.twinCaseSets = [][]c07TC{small[0], small[1]}
@@ -1641,6 +1763,38 @@ phaseF:
 		}
 	}
 	r.Count("phaseF ms (this shard summed)", time.Since(startF).Milliseconds())
+
+	// Phase G: request-level fields of the test-case template (use_get_http_method,
+	// service and method absent / present but empty / set) x directive combinations.
+	startG := time.Now()
+	r.Extra["suites_phaseG"] = len(plan.reqDirs) * len(plan.reqCases)
+phaseG:
+	for ci, cases := range plan.reqCases {
+		for di := range plan.reqDirs {
+			k++
+			if !r.Mine(k) {
+				continue
+			}
+			if expired() {
+				break phaseG
+			}
+			r.Count("phaseG suites done", 1)
+			suite := plan.reqDirs[di]
+			suite.Cases = cases
+			for _, set := range plan.reqSets {
+				for _, mode := range runModes {
+					in := c07Input{Suites: []c07Suite{suite}, CfgSet: set.Label, RunMode: mode}
+					res := c07Evaluate(&in, set, 2, false)
+					c07Report(r, &in, res)
+					r.Count("phaseG evaluations", 1)
+				}
+			}
+			if di == (len(plan.reqDirs)/11)*(ci+1) {
+				r.Sample(c07Input{Suites: []c07Suite{suite}, CfgSet: plan.reqSets[0].Label, RunMode: runModes[ci%3]})
+			}
+		}
+	}
+	r.Count("phaseG ms (this shard summed)", time.Since(startG).Milliseconds())
 
 	// Phase B: every suite against every singleton of the reduced universe.
 	startB := time.Now()
